@@ -33,6 +33,17 @@ func escapeTemplate(tmpl *Template, node parse.Node, name string) error {
 	for k := range tmpl.esc.derived {
 		knownDerived[k] = true
 	}
+	defer func() {
+		if r := recover(); r != nil {
+			// Do not leave the assumptions of an analysis that did not finish behind:
+			// a later execution would take the template for analysed.
+			tmpl.esc.rollback(knownOutput, knownDerived)
+			if t := tmpl.set[name]; t != nil {
+				t.escapeErr = fmt.Errorf("html/template: internal error while escaping %q: %v", name, r)
+			}
+			panic(r)
+		}
+	}()
 	c, _ := tmpl.esc.escapeTree(context{}, node, name, 0)
 	var err error
 	if c.err != nil {
@@ -718,6 +729,10 @@ func (e *escaper) escapeText(c context, n *parse.TextNode) context {
 			state: stateError,
 			err:   errorf(ErrCSPCompatibility, n, 0, `"javascript:" URI disallowed for CSP compatibility`),
 		}
+	}
+	if len(s) == 0 {
+		// (A text node emptied by an earlier rewrite, e.g. one that held only a comment.)
+		return c
 	}
 	if c.nameOpen && continuesName(c.state, s[0]) {
 		// The text before the preceding template node ended inside a name, as in
